@@ -65,7 +65,7 @@ TReset ==
      /\ ign' = ~ok
      /\ IF ok THEN ResetWith(CfgOfRun(E)) /\ expv' = [t \in 0..E.threads |-> << >>]
         ELSE UNCHANGED <<vars, expv>>
-     /\ cnt' = IF ok THEN [cnt EXCEPT ![1] = @ + 1] ELSE cnt
+     /\ cnt' = IF ok THEN [cnt EXCEPT !["runs"] = @ + 1] ELSE cnt
   /\ UNCHANGED div
 
 TIgnored ==
@@ -85,7 +85,7 @@ TDropElem ==
   /\ IF own.expd[E.t] # << >> /\ Head(own.expd[E.t]) = E.id
        THEN /\ own' = [own EXCEPT !.expd[E.t] = Tail(@)]
             /\ l' = l + 1
-            /\ cnt' = [cnt EXCEPT ![2] = @ + 1]
+            /\ cnt' = [cnt EXCEPT !["DropElem"] = @ + 1]
             /\ UNCHANGED <<cf, counter, alive, pc, op, tk, left, res, buf, nops, mon, h, run, ign, expv, div>>
        ELSE Diverge("drop")
 
@@ -121,7 +121,7 @@ TFetchAdd ==
        THEN /\ FetchAdd(E.t)
             /\ l' = l + 1
             /\ expv' = [expv EXCEPT ![E.t] = @ \o NewVisits(E.t, E.loc)]
-            /\ cnt' = [cnt EXCEPT ![2] = @ + 1]
+            /\ cnt' = [cnt EXCEPT !["FetchAdd"] = @ + 1]
             /\ UNCHANGED <<run, ign, div>>
        ELSE Diverge("fetch_add")
 
@@ -130,7 +130,7 @@ TLoad ==
   /\ IF pc[E.t] \in {"ld", "ld2"} /\ op[E.t].it = E.loc /\ E.loc \in Its /\ counter[E.loc] = W(E.saw)
        THEN /\ Load(E.t)
             /\ l' = l + 1
-            /\ cnt' = [cnt EXCEPT ![2] = @ + 1]
+            /\ cnt' = [cnt EXCEPT !["Load"] = @ + 1]
             /\ UNCHANGED <<run, ign, expv, div>>
        ELSE Diverge("load")
 
@@ -139,7 +139,7 @@ TStore ==
   /\ IF pc[E.t] = "st" /\ op[E.t].it = E.loc /\ E.loc \in Its /\ W(E.arg) = SkipTo
        THEN /\ Store(E.t)
             /\ l' = l + 1
-            /\ cnt' = [cnt EXCEPT ![2] = @ + 1]
+            /\ cnt' = [cnt EXCEPT !["Store"] = @ + 1]
             /\ UNCHANGED <<run, ign, expv, div>>
        ELSE Diverge("store")
 
@@ -175,7 +175,7 @@ TRet ==
   /\ IF pc[E.t] = "ret" /\ expv[E.t] = << >> /\ own.expd[E.t] = << >> /\ SameRes(res[E.t], E.res)
        THEN /\ Ret(E.t)
             /\ l' = l + 1
-            /\ cnt' = [cnt EXCEPT ![3] = @ + 1]
+            /\ cnt' = [cnt EXCEPT !["results"] = @ + 1]
             /\ UNCHANGED <<run, ign, expv, div>>
        ELSE Diverge("return")
 
@@ -184,7 +184,7 @@ TInit ==
   /\ l = 1 /\ run = -1 /\ ign = TRUE
   /\ expv = [t \in 0..NT |-> << >>]
   /\ div = {}
-  /\ cnt = <<0, 0, 0>>
+  /\ cnt = [k \in {"runs", "results", "FetchAdd", "Load", "Store", "DropElem"} |-> 0]
 
 TNext == TReset \/ TIgnored \/ TOther \/ TDropElem \/ TMem \/ TStop \/ TCall \/ TFetchAdd \/ TLoad \/ TStore \/ TAtomicOther \/ TVisit \/ TRet
 
